@@ -19,7 +19,15 @@ import (
 // a disagreement replays exactly from (seed, tier).
 type Rng struct{ s uint64 }
 
-func NewRng(seed uint64) *Rng { return &Rng{s: seed*0x9E3779B97F4A7C15 + 0x1234567} }
+// NewRng hashes the seed first: the state advances by a constant per draw, so
+// un-hashed neighbouring seeds would yield shifted copies of one stream.
+func NewRng(seed uint64) *Rng {
+	z := seed + 0x632BE59BD9B4E019
+	z = (z ^ (z >> 30)) * 0xBF58476D1CE4E5B9
+	z = (z ^ (z >> 27)) * 0x94D049BB133111EB
+	z ^= z >> 31
+	return &Rng{s: z*0xD6E8FEB86659FD93 + 0x1234567}
+}
 
 func (r *Rng) U64() uint64 {
 	r.s += 0x9E3779B97F4A7C15
